@@ -41,7 +41,7 @@ class Run:
         return f"Run(rc={self.rc}, to={self.timed_out}, err={self.err[-300:]!r})"
 
 
-def run_and_reap(cmd, cwd, env=None, timeout=60, pass_fds=(), on_started=None):
+def run_and_reap(cmd, cwd, env=None, timeout=60, pass_fds=(), on_started=None, preexec_fn=None):
     """Runs cmd, waits for the main process, then waits until every descendant that inherited our
     sentinel pipe has exited (EOF). Returns Run. `on_started(popen)` is called right after spawn."""
     r, w = os.pipe()
@@ -51,7 +51,7 @@ def run_and_reap(cmd, cwd, env=None, timeout=60, pass_fds=(), on_started=None):
     if env:
         e.update(env)
     p = subprocess.Popen(cmd, cwd=cwd, env=e, stdout=subprocess.PIPE, stderr=subprocess.PIPE,
-                         stdin=subprocess.DEVNULL, pass_fds=(w, *pass_fds), start_new_session=True)
+                         stdin=subprocess.DEVNULL, pass_fds=(w, *pass_fds), start_new_session=True, preexec_fn=preexec_fn)
     os.close(w)
     try:
         if on_started:
